@@ -140,6 +140,18 @@ CLAIMED = {
              'and radius-dependent rotational transform and local radial blocks not starting at 0.',
         design_ref='DESIGN.md 4 C13',
         note=TRUST + 'numpy.linalg.solve by exact contract. Convergence order is claimed only through the moment conditions of the weights.'),
+    'C14': dict(
+        category='proof',
+        technique='symbolic execution of the real finite-element assembly and per-mode solve with uninterpreted coefficient functions and symbolic right-hand side; scipy.sparse/spsolve by stand-in/contract; z3 entrywise identities against an independent dense Galerkin assembly',
+        text='Partial claim in exact arithmetic: for every mode (global index on distributed modes) and axial position the matrix and '
+             'right-hand side the real DiffEqSolver hands to the sparse solve equal the dense Galerkin matrix of the weak form '
+             'int[-A phi\'(psi r)\' + B phi\' psi r + C phi psi r - m^2 D phi psi r] and int E rho_h psi r on the same Gauss-Legendre '
+             'nodes, restricted to the unknowns of that mode\'s Dirichlet/Neumann choice; the solved coefficients are placed at those '
+             'unknowns with zeros at Dirichlet ends and evaluated at the radial nodes; pure-Neumann modes with vanishing C are refused. '
+             'B,C,D,E arbitrary (uninterpreted), A constant, all right-hand sides.',
+        design_ref='DESIGN.md 4 C14',
+        note=TRUST + 'spsolve by contract, scipy.sparse by a dense stand-in. NOT decided: exactness for manufactured solutions beyond "same quadrature", '
+                     'solveEquationForFunction, degrees 4-5, FFT stages. The solver uses the first cell\'s half width for every cell (uniform radial breaks assumed by the code; the oracle mirrors this).'),
     'C16': dict(
         category='proof',
         technique='symbolic execution of the real DensityFinder / poisson_tools on every simulated rank with the whole distribution function symbolic (z3 Reals); linear real arithmetic queries',
